@@ -304,11 +304,12 @@ def gen_fn(rng, tier):
                     ops += s.ops
         # --- at and above MAX_CELL_SPLIT / MAX_CELL_COLLAPSE
         for k, closed in [(100, True), (101, True), (101, False), (102, False), (103, True)]:
-            s, a, b, ring = edge_star(rng, k, closed, with_edg=True)
-            s.op('split %d %d %s' % (a, b, wgt(rng)))
-            s.op('collapse %d %d' % (a, b))
-            s.op('trial_reject %d %d %s' % (a, b, wgt(rng)))
-            ops += s.ops
+            for first in ('split %d %d ' + wgt(rng), 'collapse %d %d'):   # each limit on an untouched star
+                s, a, b, ring = edge_star(rng, k, closed, with_edg=True)
+                s.op(first % (a, b))
+                s.op('collapse %d %d' % (a, b))
+                s.op('trial_reject %d %d %s' % (a, b, wgt(rng)))
+                ops += s.ops
         # more than MAX triangles (and edgs) around an edge with few tets: the later groups fail after the tets changed
         for grp in ('tri', 'edg'):
             s, a, b, ring = edge_star(rng, 4, True)
@@ -643,9 +644,11 @@ def oracle_run(ops, impl):
             if any(ints[2] in c[:NP[k]] for k, rows in r['cells'].items() for c in rows):
                 out.append((0, where + ': trial vertex still referenced'))
         elif phase == 'end':  # not moved
-            if r['reals'].get(ints[0]) != b['reals'].get(ints[0]):
-                out.append((0, where + ': coordinates restored but metric not'))
-            if r['hash'] != b['hash']:
+            ma, mb = r['reals'].get(ints[0], []), b['reals'].get(ints[0], [])
+            if len(ma) != len(mb) or any(x != y and not abs(unhx(x) - unhx(y)) <= 1e-9 * max(abs(unhx(x)), abs(unhx(y)))
+                                         for x, y in zip(ma[3:], mb[3:])):
+                out.append((0, where + ': coordinates restored but metric not (beyond re-interpolation rounding)'))
+            if r['hashs'] != b['hashs']:
                 out.append((0, where + ': restored smoothing attempt changed the mesh (structural hash differs)'))
     return out[:20]
 
